@@ -1,14 +1,17 @@
 #!/bin/sh
-# tools/try_all_seeds.sh <srcdir> <suffix>   e.g. /tmp/seeded2 2  -> keeps valid seeds as seeded/C05a2 ... prints one line each
-SRC=$1; SUF=$2
+# tools/try_all_seeds.sh <srcdir> <suffix> [PIDs...]   e.g. /tmp/seeded2 2 C05 C06 -> keeps valid seeds as seeded/C05a2 ...
+# prints one line per seed; runs SEED_JOBS (default 4) seeds at a time, each in its own scratch worktree
+SRC=$1; SUF=$2; shift 2
 cd "$(dirname "$0")/.." || exit 2
-for d in $SRC/C*/; do
-  P=$(basename $d)
-  for x in a b c; do
-    [ -f $d/$x/patch.diff ] || continue
-    mkdir -p seeded/_candidates/$P$x$SUF; cp $d/$x/patch.diff $d/$x/demo.py $d/$x/meta.json seeded/_candidates/$P$x$SUF/ 2>/dev/null
-    R=$(SEED_KEEP=$P$x$SUF tools/try_seed.py $P seeded/_candidates/$P$x$SUF 2>&1)
-    V=$(echo "$R" | grep '"valid_seed"' | tr -d ' ,'); C=$(echo "$R" | grep '"caught"' | tr -d ' ,'); A=$(echo "$R" | grep '"apply_rc"' | tr -d ' ,')
-    echo "$P$x$SUF $A $V $C :: $(echo "$R" | grep '^  "  C' | head -1 | cut -c1-140)"
-  done
-done
+[ $# -gt 0 ] || set -- $(cd $SRC && ls -d C??)
+one() {
+  P=$1; x=$2
+  d=$SRC/$P
+  [ -f $d/$x/patch.diff ] || return 0
+  mkdir -p seeded/_candidates/$P$x$SUF; cp $d/$x/patch.diff $d/$x/demo.py $d/$x/meta.json seeded/_candidates/$P$x$SUF/ 2>/dev/null
+  R=$(SEED_KEEP=$P$x$SUF VERIF_NPROC=4 tools/try_seed.py $P seeded/_candidates/$P$x$SUF 2>&1)
+  V=$(echo "$R" | grep '"valid_seed"' | tr -d ' ,'); C=$(echo "$R" | grep '"caught"' | tr -d ' ,'); A=$(echo "$R" | grep '"apply_rc"' | tr -d ' ,')
+  echo "$P$x$SUF $A $V $C :: $(echo "$R" | grep '^  "  C' | head -1 | cut -c1-140)"
+}
+if [ "$1" = "--one" ]; then SRC=$SRC; one $2 $3; exit 0; fi
+for P in "$@"; do for x in a b c; do echo "$P $x"; done; done | xargs -P ${SEED_JOBS:-4} -L 1 sh -c "$0 $SRC $SUF --one \$0 \$1"
